@@ -11,6 +11,7 @@ import (
 	"net/url"
 	"os"
 	"reflect"
+	"runtime"
 	"strconv"
 	"strings"
 	"sync"
@@ -94,6 +95,8 @@ type slot struct {
 	wire        []*capture
 	// errObj: the error object handed to the library (C08: must not be modified)
 	hook func(inv *dyn.Invocation) *dyn.Outcome
+	// views: what each filter saw through the request context (mount "filtered"): pre<i> / post<i>
+	views map[string]string
 }
 
 type world struct {
@@ -110,6 +113,85 @@ type world struct {
 type filterLog struct {
 	mu  sync.Mutex
 	log map[string][]string
+}
+
+// viewFilter records, per call, what the documented context accessors return before and after the method.
+type viewFilter struct {
+	w   *world
+	idx int
+}
+
+type viewCtxKey int
+
+func contextView(ctx context.Context) string {
+	var b strings.Builder
+	if p, pv, _ := hx.Try(func() {
+		m := restli.GetMethodFromContext(ctx)
+		fmt.Fprintf(&b, "method=%s path=%+v keys=[", m, restli.GetResourcePathSegmentsFromContext(ctx))
+		for _, r := range restli.GetEntitySegmentsFromContext(ctx) {
+			raw, err := r.ReadRawBytes()
+			if err != nil {
+				fmt.Fprintf(&b, "<%v>", err)
+			}
+			fmt.Fprintf(&b, "%q ", raw)
+		}
+		b.WriteString("]")
+		switch m {
+		case restli.Method_finder:
+			b.WriteString(" finder=" + restli.GetFinderNameFromContext(ctx))
+		case restli.Method_action:
+			b.WriteString(" action=" + restli.GetActionNameFromContext(ctx))
+		}
+	}); p {
+		fmt.Fprintf(&b, " PANIC %v", pv)
+	}
+	return b.String()
+}
+
+func (f *viewFilter) note(id, phase, view string) {
+	v, ok := f.w.slots.Load(id)
+	if !ok {
+		return
+	}
+	sl := v.(*slot)
+	sl.mu.Lock()
+	if sl.views == nil {
+		sl.views = map[string]string{}
+	}
+	sl.views[fmt.Sprintf("%s%d", phase, f.idx)] = view
+	sl.mu.Unlock()
+}
+
+func (f *viewFilter) PreRequest(req *http.Request) (context.Context, error) {
+	id := req.Header.Get(callHeader)
+	f.note(id, "pre", contextView(req.Context()))
+	return context.WithValue(req.Context(), viewCtxKey(f.idx), id), nil
+}
+
+func (f *viewFilter) PostRequest(ctx context.Context, _ http.Header) error {
+	id, _ := ctx.Value(viewCtxKey(f.idx)).(string)
+	runtime.Gosched() // other requests may be routed between the method's return and this read
+	f.note(id, "post", contextView(ctx))
+	return nil
+}
+
+// viewsAgree: every filter saw the same routed method, path, keys and name before and after the method.
+func viewsAgree(sl *slot) string {
+	sl.mu.Lock()
+	defer sl.mu.Unlock()
+	if len(sl.views) == 0 {
+		return ""
+	}
+	want, ok := sl.views["pre0"]
+	if !ok {
+		return fmt.Sprintf("filter 1 ran without filter 0: %v", sl.views)
+	}
+	for _, k := range []string{"pre1", "post1", "post0"} {
+		if got, ok := sl.views[k]; ok && got != want {
+			return fmt.Sprintf("filter view %s differs from what filter 0 saw before the method:\n   pre0 =%s\n   %s=%s", k, want, k, got)
+		}
+	}
+	return ""
 }
 
 func (w *world) script(inv *dyn.Invocation) *dyn.Outcome {
@@ -140,6 +222,8 @@ func newWorld(mount string) *world {
 	w := &world{mount: mount}
 	if strings.HasPrefix(mount, "prefix") {
 		w.server = restli.NewPrefixedServer(prefix)
+	} else if mount == "filtered" {
+		w.server = restli.NewServer(&viewFilter{w, 0}, &viewFilter{w, 1})
 	} else {
 		w.server = restli.NewServer()
 	}
@@ -147,7 +231,7 @@ func newWorld(mount string) *world {
 		dyn.Register(w.server, r, dyn.NewMock(S, r, w.script))
 	}
 	switch mount {
-	case "bare", "prefix":
+	case "bare", "prefix", "filtered":
 		w.handler = w.server.Handler()
 	case "mux", "prefix-mux":
 		mux := http.NewServeMux()
@@ -288,10 +372,7 @@ func newRecorder() *httptest.ResponseRecorder { return httptest.NewRecorder() }
 func contextBackground() context.Context { return context.Background() }
 
 // validValue is a valid value of the type (aval.Zero may hold an unknown enum constant / unset union).
-func validValue(t schema.Type) *aval.V {
-	v := rapid.Custom(func(rt *rapid.T) *aval.V { return (&aval.Gen{S: S, MaxDepth: 2, Plain: true}).Value(rt, t, 1) }).Example(1)
-	return v
-}
+func validValue(t schema.Type) *aval.V { return aval.Valid(S, t) }
 
 // benignOutcome is a well-formed, empty successful outcome for any method.
 func benignOutcome(mi *dyn.MethodInfo) *dyn.Outcome {
